@@ -748,6 +748,7 @@ type writes struct {
 	ints     map[string]bool       // integer ghosts possibly replaced
 	bools    map[string]bool       // boolean ghosts possibly replaced
 	layerParser bool               // a gopacket parser decodes into its registered layers
+	aeadOpen, aeadSeal bool        // the ghost trace of the last AEAD open / seal possibly replaced
 }
 
 func newWrites() *writes {
@@ -783,6 +784,12 @@ func (ex *Exec) havocWrites(w *writes, st *State, onlyOuter bool) {
 	}
 	for k := range w.bools {
 		st.ghost[k] = boolV(freshVar("ghost|"+k, sortBool))
+	}
+	if w.aeadOpen {
+		havocAEADTrace(st, "open")
+	}
+	if w.aeadSeal {
+		havocAEADTrace(st, "seal")
 	}
 	for k := range w.ints {
 		nv := freshValue("ghost|"+k, types.Typ[types.Int])
@@ -1431,6 +1438,10 @@ func (ex *Exec) scanCall(call *ast.CallExpr, info *types.Info, w *writes, depth 
 		w.calls[cn] = true
 	}
 	switch fn.FullName() {
+	case "(crypto/cipher.AEAD).Open":
+		w.aeadOpen = true
+	case "(crypto/cipher.AEAD).Seal":
+		w.aeadSeal = true
 	case "(*net.UDPConn).ReadMsgUDPAddrPort":
 		w.ghosts["net.lastpkt"] = true
 		w.bools["net.lastok"] = true
@@ -1448,6 +1459,12 @@ func (ex *Exec) scanCall(call *ast.CallExpr, info *types.Info, w *writes, depth 
 		if fi.Con != nil && !fi.Con.Inline {
 			for _, m := range fi.Con.Modifies {
 				ex.famsForModifies(fi, m, w)
+			}
+			if fi.Con.opens {
+				w.aeadOpen = true
+			}
+			if fi.Con.seals {
+				w.aeadSeal = true
 			}
 			return
 		}
@@ -1477,6 +1494,12 @@ func (ex *Exec) scanCall(call *ast.CallExpr, info *types.Info, w *writes, depth 
 			}
 			if sub.layerParser {
 				w.layerParser = true
+			}
+			if sub.aeadOpen {
+				w.aeadOpen = true
+			}
+			if sub.aeadSeal {
+				w.aeadSeal = true
 			}
 			// callee locals are irrelevant; pointer-receiver/pointer params targeting caller locals:
 			for _, a := range call.Args {
@@ -1696,4 +1719,22 @@ func simplifyImpl(g *Term) *Term {
 		return mkAnd(args...)
 	}
 	return g
+}
+
+// The ghost trace of the last AEAD operation on a path: a success flag (opened()/sealed()), the cipher handle (its key)
+// and the byte strings involved. havocAEADTrace replaces it by an arbitrary one (modular calls with an "aead" clause,
+// loop heads whose body may perform the operation).
+var aeadHandleT = types.NewPointer(types.Typ[types.Uint8])
+
+func havocAEADTrace(st *State, op string) {
+	bs := types.NewSlice(types.Typ[types.Uint8])
+	st.ghost["aead."+op+".ok"] = boolV(freshVar("aead|"+op+"|ok", sortBool))
+	st.ghost["aead."+op+".aead"] = scalarV(aeadHandleT, freshVar("aead", sortRef))
+	keys := []string{"ad", "nonce", "ct"}
+	if op == "seal" {
+		keys = []string{"ad", "pt"}
+	}
+	for _, k := range keys {
+		st.ghost["aead."+op+"."+k] = freshValue("aead."+op+"."+k, bs)
+	}
 }
